@@ -1,5 +1,6 @@
 import SimilarVerif.Lemmas.Replace
 import SimilarVerif.Lemmas.CompactTotal
+import SimilarVerif.Lemmas.CaptureNormal
 /-!
 # C09 — captured diffs are in canonical normal form
 
@@ -64,5 +65,69 @@ open SimilarVerif Spec
 latest position — its first inserted item differs from the first equal item after it — for every
 valid script, shipped and repaired variant, every loop bound -/
 theorem insertion_at_latest_position : type_of% @CompactT.cleanup_insert_latest := @CompactT.cleanup_insert_latest
+
+end SimilarVerif.C09
+
+namespace SimilarVerif.C09
+open SimilarVerif Spec
+
+/-- in the cleaned list every Insert is followed by an Equal or by nothing (the second invariant of the
+insert pass; with it `Replace` cannot merge a lone insertion that precedes an equal op) -/
+theorem cleanup_insert_next_equal : type_of% @CaptureNF.cleanup_insert_next_equal :=
+  @CaptureNF.cleanup_insert_next_equal
+
+/-- `Replace` carries clause 4 from the cleaned list to its output -/
+theorem replace_keeps_latest : type_of% @CaptureNF.replace_latest := @CaptureNF.replace_latest
+
+/-- **C09 end to end — whatever `capture_diff` returns**: every algorithm, shipped and repaired clean-up,
+in-bounds ranges (Patience: also the same-side comparisons of `unique`), EVERY world (any clock):
+`capture_diff` returns, the ops are a valid script and
+(1) Equal and non-Equal ops strictly alternate, (2) no op is empty, (3) no two adjacent ops are both
+changes, (4) a pure insertion followed by an equal op has its first inserted item different from the first
+item of the equal run (stated exactly as `insertion_at_latest_position`, for the captured ops). -/
+theorem capture_normal_form (alg : Alg) (E : Env) (repair : Bool) (os oe ns ne : Nat) (w : World)
+    (ho : os ≤ oe) (hn : ns ≤ ne) (hb : InBounds E os oe ns ne)
+    (hp : alg = .patience → CaptureNF.SameSideBounds E os oe ns ne) :
+    ∃ ops w', captureDiff alg E repair os oe ns ne w = .ok (ops, w') ∧
+      Walk (eqB E) os ns ops oe ne ∧
+      Alternating ops ∧
+      (∀ x ∈ ops, x.isEmpty = false) ∧
+      (∀ pre x y post, ops = pre ++ x :: y :: post → ¬ (x.tag ≠ .equal ∧ y.tag ≠ .equal)) ∧
+      (∀ pre co cn l eo en el post, ops = pre ++ .insert co cn l :: .equal eo en el :: post →
+        eqB E eo cn = false) :=
+  CaptureNF.capture_normal_form alg E repair os oe ns ne w ho hn hb hp
+
+/-- the same with the `Spec.NormalForm` predicate (Spec/Walk.lean) -/
+theorem capture_normalForm (alg : Alg) (E : Env) (repair : Bool) (os oe ns ne : Nat) (w : World)
+    (ho : os ≤ oe) (hn : ns ≤ ne) (hb : InBounds E os oe ns ne)
+    (hp : alg = .patience → CaptureNF.SameSideBounds E os oe ns ne) :
+    ∃ ops w', captureDiff alg E repair os oe ns ne w = .ok (ops, w') ∧ Walk (eqB E) os ns ops oe ne ∧
+      NormalForm (eqB E) ops :=
+  CaptureNF.capture_normalForm alg E repair os oe ns ne w ho hn hb hp
+
+/-- clause 4 alone for whatever `capture_diff` returned after a valid raw run -/
+theorem capture_insert_latest : type_of% @CaptureNF.capture_insert_latest := @CaptureNF.capture_insert_latest
+
+/-- non-vacuity: in-bounds ranges with the same-side comparisons defined exist for every algorithm
+(`[0,1,2]` vs `[0,2,2]`) … -/
+example (alg : Alg) : InBounds (Env.ofSeqs #[0, 1, 2] #[0, 2, 2]) 0 3 0 3 ∧
+    (alg = .patience → CaptureNF.SameSideBounds (Env.ofSeqs #[0, 1, 2] #[0, 2, 2]) 0 3 0 3) := by
+  refine ⟨?_, fun _ => ⟨?_, ?_⟩⟩ <;>
+  · intro i j _ hi _ hj
+    have : i = 0 ∨ i = 1 ∨ i = 2 := by omega
+    have : j = 0 ∨ j = 1 ∨ j = 2 := by omega
+    rcases ‹i = 0 ∨ i = 1 ∨ i = 2› with rfl | rfl | rfl <;>
+      rcases ‹j = 0 ∨ j = 1 ∨ j = 2› with rfl | rfl | rfl <;> decide
+
+/-- … and clause 4 is exercised: old `[1,2]`, new `[1,1,2]` — the inserted `1` ends up AFTER the equal `1`
+(latest position), directly before the equal `2` which differs from it -/
+example : (captureDiff .myers (Env.ofSeqs #[1, 2] #[1, 1, 2]) false 0 2 0 3 {}).map (·.1) =
+    .ok [.equal 0 0 1, .insert 1 1 1, .equal 1 2 1] := by rfl
+
+#print axioms cleanup_insert_next_equal
+#print axioms replace_keeps_latest
+#print axioms capture_normal_form
+#print axioms capture_normalForm
+#print axioms capture_insert_latest
 
 end SimilarVerif.C09
